@@ -137,6 +137,12 @@ Parse(t) ==
               IF le # none THEN [kind |-> "unspecified", v |-> le]
               ELSE [kind |-> "malformed", v |-> none]
 
+(* What a parser may do with t: "ok" = must return Parse(t).v, "malformed" = must
+   refuse, "unspecified" = may refuse; if it accepts, it returns Parse(t).v
+   unless a number is not representable (Huge), then the triple is not compared. *)
+ParseVerdict(t) == LET p == Parse(t) IN IF p.kind = "ok" /\ HasHuge(p.v) THEN "unspecified" ELSE p.kind
+Exact(t) == LET p == Parse(t) IN p.kind # "malformed" /\ ~HasHuge(p.v)
+
 (* Verdict on "a program / a stream requires version string t, the provider
    has version hv".  An unspecified string may be refused or read leniently:
    if the lenient reading is incompatible both readings refuse.  Refusing a
@@ -393,6 +399,7 @@ UnrequiredRejected == kind = "model" /\ ~all =>
 ExportStr(t, tag) ==
     LET p == Parse(t) IN
     PrintT(<<"TR", ToJson([k |-> tag, s |-> Join(t), p |-> p.kind, v |-> p.v,
+                           pk |-> ParseVerdict(t), exact |-> Exact(t),
                            acc |-> {c \in HaveCodes : VerdictOf(p, Decode(c)) = "accept"},
                            uns |-> {c \in HaveCodes : VerdictOf(p, Decode(c)) = "unspecified"}])>>)
 
@@ -402,7 +409,7 @@ Export ==
                                   rv |-> RequireVerdict(Render(w'), h')])>>)
       [] kind' = "str" -> ExportStr(s', "str")
       [] kind' = "extra" -> ExportStr(s', "extra")
-      [] kind' = "model" ->
+      [] kind' = "model" /\ CoreModel \in evm' ->      \* only traces with core events can be built
            PrintT(<<"TR", ToJson([k |-> "model", req |-> req', ev |-> evm',
                                   all |-> all', tv |-> TraceVerdict(evm', req', all'),
                                   en |-> [m \in Models |-> ShouldEnable(m, req', all')]])>>)
